@@ -135,6 +135,10 @@ def finish(ctx, mod, write_evidence=True):
     harness = []
     lines = []
     rdir = os.path.join(core.VERIF, 'replays', prop)
+    todo = [sig for sig in sorted(ctx.viol) if not sig.startswith('harness/')]
+    first = dict(zip(todo, core.isolated_calls_many(mod.__name__, ctx.seed, ctx.repo,
+                                                    [(ctx.viol[s_]['fn'], ctx.viol[s_]['case']) for s_ in todo], 2,
+                                                    parallel=max(2, min(8, ctx.workers)))))
     for sig in sorted(ctx.viol):
         e = ctx.viol[sig]
         if sig.startswith('harness/'):
@@ -145,7 +149,7 @@ def finish(ctx, mod, write_evidence=True):
         # same process sees, so a case that does not reproduce here is replayed twice more, each time in a
         # fresh interpreter, before it is called nondeterministic.
         # (in a worker process of its own, never in this reporting process: the case may crash compiled code)
-        status, calls = core.isolated_calls(mod.__name__, ctx.seed, ctx.repo, e['fn'], e['case'], 2)
+        status, calls = first[sig]
         if sig.startswith('crash/worker-process-died'):
             ok = status == 'died'
             if not ok:
@@ -156,6 +160,10 @@ def finish(ctx, mod, write_evidence=True):
                 calls = None
         else:
             ok = status == 'ok' and all(sig in c_ for c_ in calls)
+        if not ok and not sig.startswith('crash/') and status == 'ok' and sig not in calls[0]:
+            # not even the first execution in a fresh process shows it: it depends on what ran before in its worker
+            harness.append(dict(e, sig='harness/nondeterministic-violation/' + sig))
+            continue
         if not ok and not sig.startswith('crash/'):
             ok = replay_in_fresh_process(prop, e, ctx.seed, ctx.repo) and \
                 replay_in_fresh_process(prop, e, ctx.seed, ctx.repo)
